@@ -490,4 +490,608 @@ theorem takeWhile_all_end {p : Char → Bool} (m : Str) (hm : ∀ c ∈ m, p c =
 
 
 
+
+/-! ### numbers: soundness of the short-form and D branches -/
+
+theorem tw_stop {p : Char → Bool} (a : Str) (x : Char) (y : Str) (hx : p x = false) :
+    (a ++ x :: y).takeWhile p = a.takeWhile p ∧ (a ++ x :: y).dropWhile p = a.dropWhile p ++ x :: y := by
+  induction a with
+  | nil => simp [List.takeWhile, List.dropWhile, hx]
+  | cons c t ih =>
+    by_cases hc : p c = true
+    · simp [List.takeWhile, List.dropWhile, hc, ih]
+    · have hc' : p c = false := by simpa using hc
+      simp [List.takeWhile, List.dropWhile, hc']
+
+/-- the mantissa scan only looks at digits and the point: a following character that is
+    neither stays in the rest -/
+theorem scanMant_append (a : Str) (x : Char) (y : Str) (hx1 : isDig x = false) (hx2 : x ≠ '.') :
+    scanMant (a ++ x :: y) =
+      (scanMant a).map (fun t => (t.1, t.2.1, t.2.2 ++ x :: y)) := by
+  unfold scanMant
+  simp only [(tw_stop (p := isDig) a x y hx1).1, (tw_stop (p := isDig) a x y hx1).2]
+  cases hs2 : List.dropWhile isDig a with
+  | nil =>
+    simp only [List.nil_append, hx2, if_false]
+    by_cases hip : (List.takeWhile isDig a).isEmpty = true <;> simp [hip]
+  | cons c r =>
+    simp only [List.cons_append]
+    by_cases hc : c = '.'
+    · simp only [hc, if_true, (tw_stop (p := isDig) r x y hx1).1, (tw_stop (p := isDig) r x y hx1).2]
+      by_cases hq : ((List.takeWhile isDig a).isEmpty && (List.takeWhile isDig r).isEmpty) = true <;> simp [hq]
+    · simp only [hc, if_false]
+      by_cases hip : (List.takeWhile isDig a).isEmpty = true <;> simp [hip]
+
+
+/-- `pyFloat` / `specNumber` after the optional sign -/
+def pyTail (neg : Bool) (s1 : Str) : Option Dec :=
+  match scanMant s1 with
+  | none => none
+  | some (ip, fp, rest) =>
+    match rest with
+    | [] => some (mkDec neg ip fp 0)
+    | c :: r =>
+      if c = 'e' || c = 'E' then
+        match scanExp r with
+        | some e => some (mkDec neg ip fp e)
+        | none => none
+      else none
+
+def specTail (neg : Bool) (s1 : Str) : Option Dec :=
+  match scanMant s1 with
+  | none => none
+  | some (ip, fp, rest) =>
+    match rest with
+    | [] => some (mkDec neg ip fp 0)
+    | c :: r =>
+      if c = 'e' || c = 'E' || c = 'd' || c = 'D' then
+        (match scanExp r with
+         | some e => some (mkDec neg ip fp e)
+         | none => none)
+      else if isSign c then
+        (if r.isEmpty || !(r.all isDig) then none
+         else some (mkDec neg ip fp (if c = '-' then - (digitsVal r : Int) else (digitsVal r : Int))))
+      else none
+
+theorem pyFloat_eq (s : Str) : pyFloat s = pyTail (takeSign s).1 (takeSign s).2 := by
+  unfold pyFloat pyTail
+  cases takeSign s with
+  | mk neg s1 => rfl
+
+theorem specNumber_eq (s : Str) (h : ¬ (s = ['+'] ∨ s = ['-'])) :
+    specNumber s = specTail (takeSign s).1 (takeSign s).2 := by
+  unfold specNumber specTail
+  rw [if_neg (by simpa using h)]
+  cases takeSign s with
+  | mk neg s1 => rfl
+
+theorem all_isDig_E (u z : Str) : (u ++ 'E' :: z).all isDig = false := by
+  have hE : isDig 'E' = false := by decide
+  simp [List.all_append, hE]
+
+theorem scanExp_of_takeSign (s : Str) (neg : Bool) (w : Str) (h : takeSign s = (neg, w))
+    (hw : w.all isDig = false) : scanExp s = none := by
+  unfold scanExp
+  simp only [h, hw]
+  simp
+
+theorem scanExp_noE (r z : Str) : scanExp (r ++ 'E' :: z) = none := by
+  cases r with
+  | nil =>
+    exact scanExp_of_takeSign _ false ('E' :: z) (by simp [takeSign]) (all_isDig_E [] z)
+  | cons c r' =>
+    by_cases h1 : c = '-'
+    · exact scanExp_of_takeSign _ true (r' ++ 'E' :: z) (by simp [takeSign, h1]) (all_isDig_E r' z)
+    · by_cases h2 : c = '+'
+      · exact scanExp_of_takeSign _ false (r' ++ 'E' :: z) (by simp [takeSign, h2]) (all_isDig_E r' z)
+      · exact scanExp_of_takeSign _ false ((c :: r') ++ 'E' :: z) (by simp [takeSign, h1, h2])
+          (all_isDig_E (c :: r') z)
+
+theorem scanExp_sign (c : Char) (g4 : Str) (e : Int) (hc : isSign c = true) (h : scanExp (c :: g4) = some e) :
+    g4.isEmpty = false ∧ g4.all isDig = true ∧
+      e = (if c = '-' then - (digitsVal g4 : Int) else (digitsVal g4 : Int)) := by
+  have hc' : c = '+' ∨ c = '-' := by simpa [isSign] using hc
+  have hts : takeSign (c :: g4) = (decide (c = '-'), g4) := by
+    rcases hc' with rfl | rfl <;> simp [takeSign]
+  unfold scanExp at h
+  simp only [hts] at h
+  cases h1 : g4.isEmpty with
+  | true => simp [h1] at h
+  | false =>
+    cases h2 : g4.all isDig with
+    | false => simp [h1, h2] at h
+    | true =>
+      simp only [h1, h2] at h
+      refine ⟨rfl, rfl, ?_⟩
+      rcases hc' with rfl | rfl <;> simp at h <;> simp [← h]
+
+/-- B: what `float(g2 + 'E' + sign + g4)` succeeding says about the pieces -/
+theorem pyTail_short (neg : Bool) (g2 : Str) (c : Char) (g4 : Str) (v : Dec) (hc : isSign c = true)
+    (h : pyTail neg (g2 ++ 'E' :: c :: g4) = some v) :
+    ∃ ip fp, scanMant g2 = some (ip, fp, []) ∧ g4.isEmpty = false ∧ g4.all isDig = true ∧
+      v = mkDec neg ip fp (if c = '-' then - (digitsVal g4 : Int) else (digitsVal g4 : Int)) := by
+  unfold pyTail at h
+  rw [scanMant_append g2 'E' (c :: g4) (by decide) (by decide)] at h
+  cases hm : scanMant g2 with
+  | none => simp [hm] at h
+  | some t =>
+    obtain ⟨ip, fp, r⟩ := t
+    simp only [hm, Option.map_some] at h
+    cases r with
+    | nil =>
+      simp only [List.nil_append] at h
+      have hE : (decide ('E' = 'e') || decide True) = true := by decide
+      rw [if_pos hE] at h
+      cases he : scanExp (c :: g4) with
+      | none => simp [he] at h
+      | some e =>
+        simp only [he] at h
+        obtain ⟨h1, h2, h3⟩ := scanExp_sign c g4 e hc he
+        refine ⟨ip, fp, rfl, h1, h2, ?_⟩
+        injection h with h
+        rw [← h, h3]
+    | cons x r' =>
+      exfalso
+      simp only [List.cons_append] at h
+      by_cases hx : (decide (x = 'e') || decide (x = 'E')) = true
+      · simp only [hx, if_true, scanExp_noE] at h
+        simp at h
+      · simp [hx] at h
+
+/-- C: the documented grammar reads the same pieces as the short form -/
+theorem specTail_short (neg : Bool) (g2 ip fp : Str) (c : Char) (g4 : Str) (hc : isSign c = true)
+    (hm : scanMant g2 = some (ip, fp, [])) (h1 : g4.isEmpty = false) (h2 : g4.all isDig = true) :
+    specTail neg (g2 ++ c :: g4) =
+      some (mkDec neg ip fp (if c = '-' then - (digitsVal g4 : Int) else (digitsVal g4 : Int))) := by
+  have hc' : c = '+' ∨ c = '-' := by simpa [isSign] using hc
+  have hcd : isDig c = false := by rcases hc' with rfl | rfl <;> decide
+  have hcp : c ≠ '.' := by rcases hc' with rfl | rfl <;> decide
+  unfold specTail
+  rw [scanMant_append g2 c g4 hcd hcp, hm]
+  simp only [Option.map_some, List.nil_append]
+  have h4 : (decide (c = 'e') || decide (c = 'E') || decide (c = 'd') || decide (c = 'D')) = false := by
+    rcases hc' with rfl | rfl <;> decide
+  simp only [h4, hc, h1, h2]
+  simp
+
+
+theorem mem_takeWhile_holds (p : Char → Bool) (l : Str) (x : Char) (h : x ∈ l.takeWhile p) : p x = true := by
+  induction l with
+  | nil => simp at h
+  | cons c r ih =>
+    by_cases hc : p c = true
+    · simp only [List.takeWhile, hc] at h
+      rcases List.mem_cons.mp h with rfl | h'
+      · exact hc
+      · exact ih h'
+    · have : p c = false := by simpa using hc
+      simp [List.takeWhile, this] at h
+
+theorem takeSign_not_sign (c : Char) (r : Str) (h : isSign c = false) : takeSign (c :: r) = (false, c :: r) := by
+  have : c ≠ '+' ∧ c ≠ '-' := by simpa [isSign] using h
+  simp [takeSign, this.1, this.2]
+
+theorem notSD_not_sign (c : Char) (h : notSD c = true) : isSign c = false := by
+  simp [notSD] at h
+  simp [isSign, h.1.1.1, h.1.1.2]
+
+/-- one attempt of the anchored short-form match, followed by a successful `float()`,
+    yields a documented number with the same value -/
+theorem shortTry_sound (g1 : Option Char) (rest t : Str) (v : Dec) (h : shortTry g1 rest = some t)
+    (hp : pyFloat t = some v) : specTail (decide (g1 = some '-')) rest = some v := by
+  unfold shortTry at h
+  have hsplit := List.takeWhile_append_dropWhile (p := notSD) (l := rest)
+  cases hd : List.dropWhile notSD rest with
+  | nil => simp [hd] at h
+  | cons c r3 =>
+    simp only [hd] at h
+    by_cases hq : (isSign c && r3.all notSD) = true
+    · simp only [hq, if_true] at h
+      injection h with h
+      have hc : isSign c = true := by simp at hq; exact hq.1
+      rw [hd] at hsplit
+      -- the sign of t
+      have hts : takeSign t = (decide (g1 = some '-'), List.takeWhile notSD rest ++ 'E' :: c :: r3) := by
+        rw [← h]
+        by_cases hg : g1 = some '-'
+        · simp [hg, takeSign]
+        · simp only [hg, if_false, List.nil_append, decide_false]
+          cases hg2 : List.takeWhile notSD rest with
+          | nil => simp [takeSign]
+          | cons x xs =>
+            have hx : notSD x = true := by
+              have : x ∈ List.takeWhile notSD rest := by rw [hg2]; simp
+              exact mem_takeWhile_holds _ _ _ this
+            simpa using takeSign_not_sign x (xs ++ ['E', c] ++ r3) (notSD_not_sign x hx)
+      rw [pyFloat_eq, hts] at hp
+      obtain ⟨ip, fp, hm, h1, h2, hv⟩ := pyTail_short _ _ c r3 v hc hp
+      rw [← hsplit, specTail_short _ _ ip fp c r3 hc hm h1 h2, hv]
+    · simp [hq] at h
+
+
+theorem specTail_sign_head (neg : Bool) (c : Char) (r : Str) (hc : isSign c = true) :
+    specTail neg (c :: r) = none := by
+  have hc' : c = '+' ∨ c = '-' := by simpa [isSign] using hc
+  have hd : isDig c = false := by rcases hc' with rfl | rfl <;> decide
+  have hp : c ≠ '.' := by rcases hc' with rfl | rfl <;> decide
+  unfold specTail scanMant
+  simp [List.takeWhile, List.dropWhile, hd, hp]
+
+/-- the anchored short-form branch of `convert_fortran_number` only accepts documented numbers -/
+theorem shortForm_sound (s t : Str) (v : Dec) (hl : ¬ (s = ['+'] ∨ s = ['-']))
+    (hs : shortForm s = some t) (hp : pyFloat t = some v) : specNumber s = some v := by
+  rw [specNumber_eq s hl]
+  cases s with
+  | nil => simp [shortForm] at hs
+  | cons c0 r =>
+    unfold shortForm at hs
+    by_cases hsg : isSign c0 = true
+    · have hc' : c0 = '+' ∨ c0 = '-' := by simpa [isSign] using hsg
+      have hts : takeSign (c0 :: r) = (decide (c0 = '-'), r) := by
+        rcases hc' with rfl | rfl <;> simp [takeSign]
+      simp only [hsg, if_true] at hs
+      cases h1 : shortTry (some c0) r with
+      | some t' =>
+        simp only [h1] at hs
+        injection hs with hs
+        subst hs
+        have := shortTry_sound (some c0) r t' v h1 hp
+        rw [hts]
+        simpa using this
+      | none =>
+        simp only [h1] at hs
+        have := shortTry_sound none (c0 :: r) t v hs hp
+        rw [specTail_sign_head _ c0 r hsg] at this
+        simp at this
+    · have hsg' : isSign c0 = false := by simpa using hsg
+      simp only [hsg'] at hs
+      have := shortTry_sound none (c0 :: r) t v hs hp
+      rw [takeSign_not_sign c0 r hsg']
+      simpa using this
+
+
+/-! ### the D → e branch -/
+
+theorem fD_cases (c : Char) : (replD c = c ∧ c ≠ 'D' ∧ c ≠ 'd') ∨ (replD c = 'e' ∧ (c = 'D' ∨ c = 'd')) := by
+  unfold replD
+  by_cases h : (c = 'D' ∨ c = 'd')
+  · right; rcases h with rfl | rfl <;> simp
+  · left
+    have h' : c ≠ 'D' ∧ c ≠ 'd' := by
+      constructor <;> (intro e; exact h (by simp [e]))
+    simp [h'.1, h'.2]
+
+theorem fD_isDig (c : Char) : isDig (replD c) = isDig c := by
+  rcases fD_cases c with ⟨h, _, _⟩ | ⟨h, h2⟩
+  · rw [h]
+  · rw [h]; rcases h2 with rfl | rfl <;> decide
+
+theorem fD_of_isDig (c : Char) (h : isDig c = true) : replD c = c := by
+  rcases fD_cases c with ⟨h1, _, _⟩ | ⟨_, h2⟩
+  · exact h1
+  · rcases h2 with rfl | rfl <;> simp [isDig] at h <;> revert h <;> decide
+
+theorem fD_eq_char (c x : Char) (hx : x ≠ 'e') (hx1 : x ≠ 'D') (hx2 : x ≠ 'd') : replD c = x ↔ c = x := by
+  rcases fD_cases c with ⟨h, h1, h2⟩ | ⟨h, h2⟩
+  · rw [h]
+  · rw [h]
+    constructor
+    · intro e; exact absurd e.symm hx
+    · intro e; rcases h2 with rfl | rfl
+      · exact absurd e.symm hx1
+      · exact absurd e.symm hx2
+
+theorem map_fD_digits (l : Str) (h : l.all isDig = true) : l.map replD = l := by
+  induction l with
+  | nil => rfl
+  | cons c r ih =>
+    simp only [List.all_cons, Bool.and_eq_true] at h
+    simp [fD_of_isDig c h.1, ih h.2]
+
+theorem tw_map_fD (l : Str) :
+    (l.map replD).takeWhile isDig = l.takeWhile isDig ∧ (l.map replD).dropWhile isDig = (l.dropWhile isDig).map replD := by
+  induction l with
+  | nil => simp
+  | cons c r ih =>
+    by_cases hc : isDig c = true
+    · have h1 : isDig (replD c) = true := by rw [fD_isDig]; exact hc
+      simp [List.takeWhile, List.dropWhile, hc, h1, ih, fD_of_isDig c hc]
+    · have hc' : isDig c = false := by simpa using hc
+      have h1 : isDig (replD c) = false := by rw [fD_isDig]; exact hc'
+      simp [List.takeWhile, List.dropWhile, hc', h1]
+
+theorem scanMant_map_fD (s1 : Str) :
+    scanMant (s1.map replD) = (scanMant s1).map (fun t => (t.1, t.2.1, t.2.2.map replD)) := by
+  unfold scanMant
+  simp only [(tw_map_fD s1).1, (tw_map_fD s1).2]
+  cases hs2 : List.dropWhile isDig s1 with
+  | nil =>
+    simp only [List.map_nil]
+    by_cases hip : (List.takeWhile isDig s1).isEmpty = true <;> simp [hip]
+  | cons c r =>
+    simp only [List.map_cons]
+    have hdot : replD c = '.' ↔ c = '.' := fD_eq_char c '.' (by decide) (by decide) (by decide)
+    by_cases hc : c = '.'
+    · subst hc
+      have e1 : replD '.' = '.' := by decide
+      simp only [e1, if_true, (tw_map_fD r).1, (tw_map_fD r).2]
+      by_cases hq : ((List.takeWhile isDig s1).isEmpty && (List.takeWhile isDig r).isEmpty) = true <;> simp [hq]
+    · have : replD c ≠ '.' := fun e => hc (hdot.mp e)
+      simp only [this, hc, if_false]
+      by_cases hip : (List.takeWhile isDig s1).isEmpty = true <;> simp [hip]
+
+theorem takeSign_map_fD (s : Str) : takeSign (s.map replD) = ((takeSign s).1, (takeSign s).2.map replD) := by
+  cases s with
+  | nil => simp [takeSign]
+  | cons c r =>
+    have hm : replD c = '-' ↔ c = '-' := fD_eq_char c '-' (by decide) (by decide) (by decide)
+    have hp : replD c = '+' ↔ c = '+' := fD_eq_char c '+' (by decide) (by decide) (by decide)
+    simp only [List.map_cons, takeSign]
+    by_cases h1 : c = '-'
+    · subst h1
+      have e1 : replD '-' = '-' := by decide
+      simp [e1]
+    · have h1' : replD c ≠ '-' := fun e => h1 (hm.mp e)
+      by_cases h2 : c = '+'
+      · subst h2
+        have e1 : replD '+' = '+' := by decide
+        have e2 : replD '+' ≠ '-' := by decide
+        simp [e1]
+      · have h2' : replD c ≠ '+' := fun e => h2 (hp.mp e)
+        simp [h1, h2, h1', h2']
+
+theorem all_isDig_map_fD (w : Str) : (w.map replD).all isDig = w.all isDig := by
+  induction w with
+  | nil => rfl
+  | cons c r ih => simp [List.all_cons, fD_isDig, ih]
+
+theorem scanExp_map_fD (r : Str) (e : Int) (h : scanExp (r.map replD) = some e) : scanExp r = some e := by
+  unfold scanExp at h ⊢
+  rw [takeSign_map_fD] at h
+  cases hts : takeSign r with
+  | mk neg w =>
+    simp only [hts] at h ⊢
+    have hall := all_isDig_map_fD w
+    cases hw : w.all isDig with
+    | false =>
+      rw [hw] at hall
+      simp [hall] at h
+    | true =>
+      have := map_fD_digits w hw
+      rw [this, hw] at h
+      exact h
+
+
+/-- the D → e branch only accepts documented numbers -/
+theorem dBranch_sound (s : Str) (v : Dec) (hl : ¬ (s = ['+'] ∨ s = ['-']))
+    (hp : pyFloat (s.map replD) = some v) : specNumber s = some v := by
+  rw [specNumber_eq s hl]
+  rw [pyFloat_eq, takeSign_map_fD] at hp
+  simp only at hp
+  generalize (takeSign s).1 = neg at hp ⊢
+  generalize (takeSign s).2 = s1 at hp ⊢
+  unfold pyTail at hp
+  unfold specTail
+  rw [scanMant_map_fD] at hp
+  cases hm : scanMant s1 with
+  | none => simp [hm] at hp
+  | some t =>
+    obtain ⟨ip, fp, rest⟩ := t
+    simp only [hm, Option.map_some] at hp ⊢
+    cases rest with
+    | nil => simpa using hp
+    | cons x r =>
+      simp only [List.map_cons] at hp
+      dsimp only
+      by_cases hx : (decide (replD x = 'e') || decide (replD x = 'E')) = true
+      · rw [if_pos hx] at hp
+        have hx4 : (decide (x = 'e') || decide (x = 'E') || decide (x = 'd') || decide (x = 'D')) = true := by
+          rcases fD_cases x with ⟨h, _, _⟩ | ⟨_, h2⟩
+          · rw [h] at hx
+            simp only [Bool.or_eq_true, decide_eq_true_eq] at hx ⊢
+            rcases hx with h | h <;> simp [h]
+          · rcases h2 with rfl | rfl <;> decide
+        rw [if_pos hx4]
+        cases he : scanExp (r.map replD) with
+        | none => simp [he] at hp
+        | some e =>
+          simp only [he] at hp
+          rw [scanExp_map_fD r e he]
+          exact hp
+      · rw [if_neg hx] at hp
+        simp at hp
+
+
+
+/-! ### numbers: completeness helpers -/
+
+theorem notSD_of_dig_or_dot (c : Char) (h : isDig c = true ∨ c = '.') : notSD c = true := by
+  rcases h with h | rfl
+  · exact (isDig_props c h).1
+  · decide
+
+/-- the mantissa scan consumes a prefix made of digits and at most one point -/
+theorem scanMant_split (s1 ip fp rest : Str) (h : scanMant s1 = some (ip, fp, rest)) :
+    ∃ M, s1 = M ++ rest ∧ (∀ c ∈ M, notSD c = true) := by
+  unfold scanMant at h
+  have hsplit := List.takeWhile_append_dropWhile (p := isDig) (l := s1)
+  have hipd : ∀ c ∈ List.takeWhile isDig s1, notSD c = true :=
+    fun c hc => notSD_of_dig_or_dot c (Or.inl (mem_takeWhile_holds _ _ _ hc))
+  cases hs2 : List.dropWhile isDig s1 with
+  | nil =>
+    simp only [hs2] at h
+    split at h
+    · exact absurd h (by simp)
+    · simp only [Option.some.injEq, Prod.mk.injEq] at h
+      refine ⟨List.takeWhile isDig s1, ?_, hipd⟩
+      rw [← h.2.2, ← hs2]; exact hsplit.symm
+  | cons c q =>
+    simp only [hs2] at h
+    by_cases hc : c = '.'
+    · subst hc
+      simp only [if_true] at h
+      split at h
+      · exact absurd h (by simp)
+      · simp only [Option.some.injEq, Prod.mk.injEq] at h
+        have hq2 := List.takeWhile_append_dropWhile (p := isDig) (l := q)
+        refine ⟨List.takeWhile isDig s1 ++ '.' :: List.takeWhile isDig q, ?_, ?_⟩
+        · rw [← h.2.2, List.append_assoc, List.cons_append, hq2, ← hs2]; exact hsplit.symm
+        · intro x hx
+          rcases List.mem_append.mp hx with h1 | h1
+          · exact hipd x h1
+          · rcases List.mem_cons.mp h1 with rfl | h2
+            · decide
+            · exact notSD_of_dig_or_dot x (Or.inl (mem_takeWhile_holds _ _ _ h2))
+    · simp only [hc, if_false] at h
+      split at h
+      · exact absurd h (by simp)
+      · simp only [Option.some.injEq, Prod.mk.injEq] at h
+        refine ⟨List.takeWhile isDig s1, ?_, hipd⟩
+        rw [← h.2.2, ← hs2]; exact hsplit.symm
+
+
+theorem scanMant_of_append (M : Str) (x : Char) (r ip fp : Str) (hx1 : isDig x = false) (hx2 : x ≠ '.')
+    (h : scanMant (M ++ x :: r) = some (ip, fp, x :: r)) : scanMant M = some (ip, fp, []) := by
+  rw [scanMant_append M x r hx1 hx2] at h
+  cases hm : scanMant M with
+  | none => simp [hm] at h
+  | some t =>
+    obtain ⟨a, b, r0⟩ := t
+    simp only [hm, Option.map_some, Option.some.injEq, Prod.mk.injEq] at h
+    obtain ⟨h1, h2, h3⟩ := h
+    have : r0 = [] := by
+      have hl := congrArg List.length h3
+      simp only [List.length_append, List.length_cons] at hl
+      exact List.eq_nil_of_length_eq_zero (by omega)
+    rw [h1, h2, this]
+
+theorem scanExp_sign_fwd (c : Char) (g4 : Str) (hc : isSign c = true) (h1 : g4.isEmpty = false)
+    (h2 : g4.all isDig = true) :
+    scanExp (c :: g4) = some (if c = '-' then - (digitsVal g4 : Int) else (digitsVal g4 : Int)) := by
+  have hc' : c = '+' ∨ c = '-' := by simpa [isSign] using hc
+  have hts : takeSign (c :: g4) = (decide (c = '-'), g4) := by
+    rcases hc' with rfl | rfl <;> simp [takeSign]
+  unfold scanExp
+  simp only [hts, h1, h2]
+  rcases hc' with rfl | rfl <;> simp
+
+theorem scanExp_map_fwd (r : Str) (e : Int) (h : scanExp r = some e) : scanExp (r.map replD) = some e := by
+  unfold scanExp at h ⊢
+  rw [takeSign_map_fD]
+  cases hts : takeSign r with
+  | mk neg w =>
+    simp only [hts] at h ⊢
+    cases hw : w.all isDig with
+    | false => simp [hw] at h
+    | true =>
+      rw [map_fD_digits w hw]
+      exact h
+
+theorem shortTry_complete (g1 : Option Char) (M : Str) (x : Char) (r : Str)
+    (hM : ∀ c ∈ M, notSD c = true) (hx : isSign x = true) (hr : r.all isDig = true) :
+    shortTry g1 (M ++ x :: r) = some ((if g1 = some '-' then ['-'] else []) ++ M ++ ['E', x] ++ r) := by
+  have hx' : x = '+' ∨ x = '-' := by simpa [isSign] using hx
+  have hxN : notSD x = false := by rcases hx' with rfl | rfl <;> decide
+  have tw := takeWhile_all (p := notSD) M x r hM hxN
+  have hrN : r.all notSD = true := by
+    simp only [List.all_eq_true] at hr ⊢
+    exact fun c hc => (isDig_props c (hr c hc)).1
+  unfold shortTry
+  simp only [tw.1, tw.2, hx, hrN]
+  simp
+
+theorem pyFloat_shortText (neg : Bool) (M : Str) (x : Char) (r ip fp : Str)
+    (hM : ∀ c ∈ M, notSD c = true) (hm : scanMant M = some (ip, fp, [])) (hx : isSign x = true)
+    (h1 : r.isEmpty = false) (h2 : r.all isDig = true) :
+    pyFloat ((if neg then ['-'] else []) ++ M ++ ['E', x] ++ r) =
+      some (mkDec neg ip fp (if x = '-' then - (digitsVal r : Int) else (digitsVal r : Int))) := by
+  have hts : takeSign ((if neg then ['-'] else []) ++ M ++ ['E', x] ++ r) = (neg, M ++ 'E' :: x :: r) := by
+    cases neg with
+    | true => simp [takeSign]
+    | false =>
+      simp only [Bool.false_eq_true, if_false, List.nil_append]
+      cases M with
+      | nil => simp [takeSign]
+      | cons c cs =>
+        have := takeSign_not_sign c (cs ++ ['E', x] ++ r) (notSD_not_sign c (hM c (by simp)))
+        simpa using this
+  rw [pyFloat_eq, hts]
+  unfold pyTail
+  rw [scanMant_append M 'E' (x :: r) (by decide) (by decide), hm]
+  simp only [Option.map_some, List.nil_append]
+  have hE : (decide ('E' = 'e') || decide ('E' = 'E')) = true := by decide
+  simp only [scanExp_sign_fwd x r hx h1 h2]
+  simp
+
+
+def isDch (c : Char) : Bool := c = 'D' || c = 'd'
+
+theorem notSD_not_D (c : Char) (h : notSD c = true) : isDch c = false := by
+  simp [notSD] at h
+  simp [isDch, h.1.2, h.2]
+
+theorem shortTry_noD (g1 : Option Char) (rest t : Str) (h : shortTry g1 rest = some t) :
+    rest.any isDch = false := by
+  unfold shortTry at h
+  have hsplit := List.takeWhile_append_dropWhile (p := notSD) (l := rest)
+  cases hd : List.dropWhile notSD rest with
+  | nil => simp [hd] at h
+  | cons c r3 =>
+    simp only [hd] at h
+    by_cases hq : (isSign c && r3.all notSD) = true
+    · simp only [Bool.and_eq_true] at hq
+      rw [← hsplit, hd]
+      simp only [List.any_append, List.any_cons, Bool.or_eq_false_iff]
+      refine ⟨?_, ?_, ?_⟩
+      · rw [List.any_eq_false]
+        intro x hx
+        simpa using notSD_not_D x (mem_takeWhile_holds _ _ _ hx)
+      · have hc' : c = '+' ∨ c = '-' := by simpa [isSign] using hq.1
+        rcases hc' with rfl | rfl <;> decide
+      · rw [List.any_eq_false]
+        intro x hx
+        have := List.all_eq_true.mp hq.2 x hx
+        simpa using notSD_not_D x this
+    · simp [hq] at h
+
+theorem shortForm_none_of_D (s : Str) (hD : s.any isDch = true) : shortForm s = none := by
+  cases hs : shortForm s with
+  | none => rfl
+  | some t =>
+    exfalso
+    cases s with
+    | nil => simp at hD
+    | cons c0 r =>
+      unfold shortForm at hs
+      by_cases hsg : isSign c0 = true
+      · simp only [hsg, if_true] at hs
+        have hc' : c0 = '+' ∨ c0 = '-' := by simpa [isSign] using hsg
+        have hc0 : isDch c0 = false := by rcases hc' with rfl | rfl <;> decide
+        cases h1 : shortTry (some c0) r with
+        | some t' =>
+          have := shortTry_noD _ _ _ h1
+          simp [List.any_cons, hc0, this] at hD
+        | none =>
+          simp only [h1] at hs
+          have := shortTry_noD _ _ _ hs
+          rw [this] at hD
+          simp at hD
+      · have hsg' : isSign c0 = false := by simpa using hsg
+        simp only [hsg'] at hs
+        have := shortTry_noD _ _ _ hs
+        rw [this] at hD
+        simp at hD
+
+theorem takeSign_suffix (s : Str) : ∃ p, s = p ++ (takeSign s).2 := by
+  cases s with
+  | nil => exact ⟨[], by simp [takeSign]⟩
+  | cons c r =>
+    by_cases h1 : c = '-'
+    · exact ⟨[c], by simp [takeSign, h1]⟩
+    · by_cases h2 : c = '+'
+      · exact ⟨[c], by simp [takeSign, h2]⟩
+      · exact ⟨[], by simp [takeSign, h1, h2]⟩
+
+
+
 end Pharmpy.C13
